@@ -143,6 +143,7 @@ def write_replay(prop, f, run, extra=None):
 # Properties the bounded enumerations can observe (their failures carry these tags): E-hist = short histories against a reference model,
 # E-dmg = single-site damage over a family of WAL layouts
 FALLBACKS = {
+    'E-fault': ('C11',),
     'E-dmg': ('C01', 'C07', 'C08', 'C09', 'C10', 'C12'),
     'E-hist': ('C01', 'C03', 'C04', 'C05', 'C06', 'C10', 'C12', 'C13', 'C14', 'C15', 'C16', 'C17', 'C18'),
 }
@@ -152,7 +153,7 @@ def fallback_enumeration(prop, why):
     """Quick tier, deductive verdict UNDECIDED (a change the verifier cannot follow): run the bounded enumerations against the real code.
     A failing case that contradicts `prop` is a real failing input: it is reported as the violation.  No failing case: the verdict stays
     undecided (a bounded search that finds nothing proves nothing).  Returns (rc, [records])."""
-    names = [n for n in ('E-dmg', 'E-hist') if prop in FALLBACKS[n]]
+    names = [n for n in ('E-fault', 'E-dmg', 'E-hist') if prop in FALLBACKS[n]]
     if not names or os.environ.get('VERIF_NO_FALLBACK'):
         return 2, []
     print('NOTE: deductive verdict undecided (%s); running the bounded fall-back %s (enumeration against the real code)' % (why[:200], ' + '.join(names)))
@@ -407,7 +408,7 @@ def main():
         rc = 1
     if rc == 0 and tool_cond:
         rc = 2
-        if not any(k['name'].startswith('E-hist') or k['name'] == 'E-dmg' for k in kres):
+        if not any(k['name'].startswith('E-hist') or k['name'] in ('E-dmg', 'E-fault') for k in kres):
             rc, fbs = fallback_enumeration(prop, '; '.join(run.tool_errors)[:200] or 'tool condition')
             if fbs:
                 ev['coverage']['fallback_enumeration'] = [{k_: fb.get(k_) for k_ in ('name', 'status', 'bound', 'seconds', 'failed_checks', 'note', 'other_properties_failing')} for fb in fbs]
